@@ -85,6 +85,45 @@ type Receiver struct {
 	mu      sync.Mutex
 	Handled map[string]int // token -> number of times handled
 	BadCtx  []string       // tokens whose handler saw a wrong CtxService
+	// Inner is an in-memory service (jsonrpc2.Local) this side forwards "relay" requests to, with
+	// the request's own context - as the agent does with its in-memory pool
+	Inner *jsonrpc2.Local
+}
+
+// InnerRecv is the receiver behind a Receiver's Inner service.
+type InnerRecv struct {
+	Own    *jsonrpc2.Local
+	BadCtx []string
+}
+
+// Visit calls back "leaf" over the service the request arrived on - which must be the Local.
+func (r *InnerRecv) Visit(ctx context.Context, token string) (string, error) {
+	svc, err := jsonrpc2.CtxService(ctx)
+	if err != nil {
+		return "", err
+	}
+	if svc != jsonrpc2.Service(r.Own) {
+		r.BadCtx = append(r.BadCtx, token)
+	}
+	var out string
+	if err := svc.Call(ctx, &out, "leaf", token); err != nil {
+		return "", err
+	}
+	return out, nil
+}
+
+func (r *InnerRecv) Leaf(ctx context.Context, token string) (string, error) {
+	return "leaf:" + token, nil
+}
+
+// Relay forwards to the in-memory service, passing the request's context through.
+func (r *Receiver) Relay(ctx context.Context, token string) (string, error) {
+	r.note(ctx, token)
+	var out string
+	if err := r.Inner.Call(ctx, &out, "visit", token); err != nil {
+		return "", err
+	}
+	return out, nil
 }
 
 func (r *Receiver) note(ctx context.Context, token string) {
@@ -123,12 +162,27 @@ func (r *Receiver) Nest(ctx context.Context, token string, depth int) (string, e
 
 // NewRPCWorld builds the world; serve loops are started by Start.
 func NewRPCWorld(pendingLimit, pendingDiscard int) *RPCWorld {
+	return NewRPCWorldOpt(pendingLimit, pendingDiscard, true)
+}
+
+// NewRPCWorldOpt: explicitClient=false leaves Remote.Client unset, the way the agent binary dials
+// the pool (&jsonrpc2.Remote{Codec: ...}).
+func NewRPCWorldOpt(pendingLimit, pendingDiscard int, explicitClient bool) *RPCWorld {
 	ca, cb := NewMemPipe(32)
 	w := &RPCWorld{CA: ca, CB: cb}
-	w.A = &jsonrpc2.Remote{Codec: ca, Client: &jsonrpc2.Client{}, Server: &jsonrpc2.Server{}, PendingLimit: pendingLimit, PendingDiscard: pendingDiscard}
-	w.B = &jsonrpc2.Remote{Codec: cb, Client: &jsonrpc2.Client{}, Server: &jsonrpc2.Server{}, PendingLimit: pendingLimit, PendingDiscard: pendingDiscard}
+	w.A = &jsonrpc2.Remote{Codec: ca, Server: &jsonrpc2.Server{}, PendingLimit: pendingLimit, PendingDiscard: pendingDiscard}
+	w.B = &jsonrpc2.Remote{Codec: cb, Server: &jsonrpc2.Server{}, PendingLimit: pendingLimit, PendingDiscard: pendingDiscard}
+	if explicitClient {
+		w.A.Client, w.B.Client = &jsonrpc2.Client{}, &jsonrpc2.Client{}
+	}
 	w.RecvA = &Receiver{Side: "a", Own: w.A, Handled: map[string]int{}}
 	w.RecvB = &Receiver{Side: "b", Own: w.B, Handled: map[string]int{}}
+	for _, r := range []*Receiver{w.RecvA, w.RecvB} {
+		r.Inner = &jsonrpc2.Local{}
+		if err := r.Inner.Server.Register("", &InnerRecv{Own: r.Inner}); err != nil {
+			panic(err)
+		}
+	}
 	if err := w.A.Server.Register("", w.RecvA); err != nil {
 		panic(err)
 	}
